@@ -328,6 +328,8 @@ pub fn run_sweep(prop: &dyn Property, tier: Tier, seed: u64, workers: usize) -> 
                     Err(_) => break,
                 }
             }
+            // every line the worker wrote has been delivered
+            let _ = txc.send(Msg::Exit(w, None, false));
         });
         children.push(Some(child));
     }
@@ -369,7 +371,21 @@ pub fn run_sweep(prop: &dyn Property, tier: Tier, seed: u64, workers: usize) -> 
                     finished_clean[w] = true;
                 }
             }
-            Ok(Msg::Exit(..)) => {}
+            Ok(Msg::Exit(w, _, _)) => {
+                // end of the worker's output: it has exited (or closed its pipe); all its lines are in
+                if !done[w] {
+                    done[w] = true;
+                    let status = children[w].as_mut().and_then(|c| c.wait().ok());
+                    if !finished_clean[w] {
+                        use std::os::unix::process::ExitStatusExt;
+                        let key = match status.and_then(|s| s.signal()) {
+                            Some(sig) => format!("abort:signal{}", sig),
+                            None => format!("abort:exit{}", status.and_then(|s| s.code()).unwrap_or(-1)),
+                        };
+                        violations.push(crash_violation(prop, seed, tier, last_run[w], &key));
+                    }
+                }
+            }
             Err(mpsc::RecvTimeoutError::Timeout) => {}
             Err(mpsc::RecvTimeoutError::Disconnected) => {
                 // all reader threads ended
@@ -384,22 +400,9 @@ pub fn run_sweep(prop: &dyn Property, tier: Tier, seed: u64, workers: usize) -> 
             }
             if let Some(child) = children[w].as_mut() {
                 match child.try_wait() {
-                    Ok(Some(status)) => {
-                        // drain remaining lines first: wait until the reader has delivered E or a grace period
-                        if finished_clean[w] || last_seen[w].elapsed() > Duration::from_millis(1500) {
-                            done[w] = true;
-                            if !finished_clean[w] {
-                                use std::os::unix::process::ExitStatusExt;
-                                let sig = status.signal();
-                                let run = last_run[w];
-                                let key = match sig {
-                                    Some(s) => format!("abort:signal{}", s),
-                                    None => format!("abort:exit{}", status.code().unwrap_or(-1)),
-                                };
-                                violations.push(crash_violation(prop, seed, tier, run, &key));
-                            }
-                        }
-                    }
+                    // exited: its reader thread reports the end of its output (Msg::Exit) once every
+                    // line has been delivered, however loaded the machine is
+                    Ok(Some(_)) => {}
                     Ok(None) => {
                         if last_seen[w].elapsed() > Duration::from_secs(budget.watchdog_s) {
                             let _ = child.kill();
